@@ -171,5 +171,8 @@ func forall(lo, hi int, f func(int) bool) bool {
 //@   ensures j.status.statusVal == 3 ==> old(j.status.statusVal) == 3
 //@   ensures old(j.status.statusVal) == 3 ==> j.status.statusVal == 3 || j.status.statusVal == 1
 //@   ensures old(j.status.statusVal) == 2 ==> j.status.statusVal == 2
+//@   ensures (old(j.status.statusVal) == 3 && j.status.statusVal == 3) ==>
+//@           forall(0, len(j.assembly.sourceRunners), func(i int) bool { return ghostRegHasSR(NodeRegistry(j.registry), j.assembly.sourceRunners[i]) }) &&
+//@           forall(0, len(j.assembly.operators), func(i int) bool { return ghostRegHasOp(NodeRegistry(j.registry), j.assembly.operators[i]) })
 //@   ensures old(j.status.statusVal) <= 1 ==> j.status.statusVal == old(j.status.statusVal) || j.status.statusVal == 2
 //@   ensures (old(j.status.statusVal) <= 1 && j.status.statusVal == 2) ==> j.assembly != nil && len(j.assembly.operators) == j.registry.taskCount && len(j.assembly.sourceRunners) == j.registry.taskCount
